@@ -336,7 +336,7 @@ Section Printer.
     | ECond c t f =>
         wrap (needs 1 c) (body c) ++ tk KQuestion "?" ::
         match t with
-        | Some t' => wrap (needs 1 t') (body t')
+        | Some t' => wrap (needs 2 t') (body t')      (* a nested ternary is parenthesised *)
         | None => []
         end ++ tk KColon ":" :: wrap (needs 2 f) (body f)
     | ECmp o a b => wrap (needs 8 a) (body a) ++ cmp_tok o :: wrap (needs 9 b) (body b)
